@@ -358,7 +358,7 @@ fn gen_write_item(
     once: &[Bytes],
     p: &Profile,
 ) -> WriteItem {
-    if !once.is_empty() && r.chance(1, 3) {
+    if !once.is_empty() && r.chance(if p.weak_deletes { 3 } else { 2 }, 6) {
         let k = r.pick(once).clone();
         let present = st.disc.cur.get(&k.0).is_some_and(|e| e.1);
         let kind = if present { WKind::WeakDel } else { WKind::Put };
@@ -590,7 +590,7 @@ pub fn gen_run(property: &str, seed: u64, p: &Profile) -> RunSpec {
         gen_keys(&mut r, nkeys)
     };
     let once = if p.weak_deletes || p.once_keys_write_once {
-        let n_once = 2 + r.usize(5);
+        let n_once = if p.weak_deletes { 1 + r.usize(3) } else { 2 + r.usize(5) };
         gen_once_keys(&mut r, n_once)
     } else {
         vec![]
